@@ -398,6 +398,14 @@ func derMutants(r *mrand.Rand, good []byte, n int) []bcase {
 }
 
 func c10(x *mon.Ctx) {
+	if !x.Quick() {
+		defer func() {
+			x.Fuzz("FuzzParse", 1000000)
+			x.Fuzz("FuzzMessage", 1000000)
+			x.Fuzz("FuzzSgxExt", 2000000)
+			x.Fuzz("FuzzCollateral", 200000)
+		}()
+	}
 	x.Level = "exploration"
 	x.Rule = "every public parsing / serialisation / verification / validation / chain-extraction / PCK-extension / RTMR entry point is called, inside recover(), on: the hostile byte corpus (truncations, size-field boundary values and pairs, re-sizes, random mutation, degenerate inputs); every single structural mutation of a valid QuoteV4 message (each sub-message nil/empty, each bytes field at length 0/n-1/n+1/2n/70000, RTMR count 0..6 and odd entries, numeric fields at boundary values) plus nil / typed-nil / foreign-typed quotes; hostile endpoint responses (bodies: nil, garbage, truncated, 12000-deep JSON, out-of-range numbers, null members, wrong types; issuer-chain headers: nil map, empty list, bad escapes, 1/3 certificates, RSA / Ed25519 / P-384 / P-224 certificates in every slot; garbage CRLs) in every endpoint slot of an otherwise honest world; hostile DER in the SGX extension (all truncations, every byte retagged, random edits), both directly and through really signed leaf certificates. Only 'returned' is allowed; a recovered panic is a violation with its stack; a fatal error kills the worker and is attributed through the breadcrumb. Non-trivial = the call returned; distinct = distinct labelled input."
 	x.Assume = []string{"hangs are detected only by the per-run watchdog (the library has no unbounded loop on these paths)"}
